@@ -34,7 +34,7 @@ let parse_case = function
 (* registration: returns router, reg outcomes, map model rid -> def index *)
 let build (c : rtcase) (caching : bool) =
   let o = if caching then c.o else { c.o with o_caching = false } in
-  let rt = ref (new_router o) and regs = ref [] and ridmap = ref [] in
+  let rt = ref (new_router o) and regs = ref [] and ridmap = ref [] and meths = ref [] in
   List.iteri (fun i (ms, p, nh) ->
       let d = match reg_path o.o_strict [] p with
         | Ok path -> Some { df_methods = format_methods ms; df_path = path; df_nil_handler = nh; df_name = str_of_ascii ("r" ^ string_of_int i) }
@@ -47,8 +47,10 @@ let build (c : rtcase) (caching : bool) =
            (match List.rev rt'.routes with
             | { rt_kind = KDyn (_, _, CUnsup, _); _ } :: _ -> raise Unsupported
             | _ -> ());
-           rt := rt'; regs := A "ok" :: !regs; ridmap := !ridmap @ [i]
+           rt := rt'; regs := A "ok" :: !regs; ridmap := !ridmap @ [i];
+           meths := L [A "meths"; sint i; slist sstr d.df_methods] :: !meths
          | Panic -> regs := A "panic" :: !regs)) c.defs;
+  regs := !meths @ !regs;      (* (reversed list: the meths entries follow the per-definition outcomes) *)
   if c.lateopt then
     regs := (match with_options !rt o with Ok _ -> A "lateopt-ok" | Panic -> A "lateopt-panic") :: !regs;
   (!rt, List.rev !regs, !ridmap)
@@ -298,6 +300,8 @@ let c13_judge cs obs =
   match obs with
   | L [L (A "reg" :: regs); L (A "panics" :: ps)] ->
     if List.exists (fun p -> p = A "t") ps then "bad lookup-panic-after-accepted-registration"
+    else if List.exists (function L [A "meths"; _; L ms] -> List.exists (fun m -> not (List.exists (fun a -> to_string (sstr a) = to_string m) any_methods)) ms | _ -> false) regs
+    then "bad accepted-route-stored-under-an-unknown-method-name"
     else if List.mem (A "lateopt-ok") regs && List.exists (fun r -> r = A "ok") regs then "bad options-accepted-after-routes-exist"
     else if List.mem (A "lateopt-panic") regs && not (List.exists (fun r -> r = A "ok") regs) then "bad options-rejected-on-an-empty-router"
     else begin
